@@ -87,7 +87,10 @@ method("_join_and_sync", "(%s) -> Ref_Deferred" % SELF, modifies=ALL, props=["C1
                                               # C15 "the leader's assignment": exactly the member elected leader computes one
                                               "only-the-leader-assigns[C15, C17]":
                                                   "join_response is not None and (n_events('GenerateAssignments') >= 1) == "
-                                                  "(join_response.leader_id == join_response.member_id)"},
+                                                  "(join_response.leader_id == join_response.member_id)",
+                                              # C15: what is sent is computed from the partitions just looked up, when a lookup was needed
+                                              "assignment-recomputed-after-the-lookup[C15]":
+                                                  "implies(n_events('LoadTopicPartitions') == 1, n_events('GenerateAssignments') == 2)"},
            # C17: the member is marked joined BEFORE its consumers are started, so that an error one of them reports while
            # they are being started (which asks for a rejoin) is not overwritten afterwards
            "call:on_join_complete#1": {"joined-before-consumers-start[C17]": "not self._rejoin_needed and self._state == '[joined]'",
@@ -135,6 +138,14 @@ method("rejoin_after_error", "(%s, result: Ref_Failure, label: str = 'x') -> Non
                "(old(exc_is(p_result, 'RequestTimedOutError')) and not old(exc_is(p_result, 'RebalanceInProgress')) and "
                "not old(exc_is(p_result, 'IllegalGeneration')) and not old(exc_is(p_result, 'InvalidGroupId')) and "
                "not old(exc_is(p_result, 'UnknownMemberId')) and not old(exc_is(p_result, 'InconsistentGroupProtocol'))), 1, 0)",
+           # C17 "unknown member": the rejected member id is dropped, the rejoin asks for a new one
+           "rejected-member-id-dropped[C17]": "implies((old(exc_is(p_result, 'InvalidGroupId')) or old(exc_is(p_result, 'UnknownMemberId'))) and "
+                                              "not old(exc_is(p_result, 'RebalanceInProgress')) and not old(exc_is(p_result, 'CoordinatorNotAvailable')) "
+                                              "and not old(exc_is(p_result, 'NotCoordinator')) and not old(exc_is(p_result, 'IllegalGeneration')), "
+                                              "self.member_id == '')",
+           # C16 "on eviction (illegal generation, unknown member, timeout) they are stopped before any rejoin"
+           "timeout-counts-as-eviction[C16]": "implies(old(exc_is(p_result, 'RequestTimedOutError')) and n_events('Timer') == 1, "
+                                              "n_calls('on_group_leave') == 1 and event_arg('Timer', 0, 0) == self.fatal_backoff_ms / 1000.0)",
            # C17 "a non-Kafka error surfaces on the Deferred returned by start": the member is stopped with that error
            "non-kafka-errors-stop-the-member[C17]":
                "n_calls('stop') == ite(not old(exc_is(p_result, 'KafkaError')) and not (old(self._stopping) and old(exc_is(p_result, 't.CancelledError'))), 1, 0)",
